@@ -45,7 +45,11 @@ def main(path):
                 args = {}
                 for k, v in a["failing_input"].items():
                     t = c.param_types.get(k, "")
-                    args[k] = bytes.fromhex(v) if (t == "bytes" or t.startswith("bytes:")) and isinstance(v, str) else v
+                    if t == "entropy" and isinstance(v, str):
+                        from .repo import PyExpr
+                        args[k] = PyExpr(v)
+                    else:
+                        args[k] = bytes.fromhex(v) if (t == "bytes" or t.startswith("bytes:")) and isinstance(v, str) else v
                 parts = qual.split(".")
                 func = "importlib.import_module(%r).%s" % ("spake2." + parts[0], ".".join(parts[1:]))
                 r = oracle().req(op="replay", func=func, args={k: Oracle.enc(v) for k, v in args.items()}, clause=cl, requires=[p.expr for p in c.pre])
